@@ -51,7 +51,7 @@ TYPES = {
     "falsy_strict": counting(U.FalsyStrictUndefined),
     "strict_default": counting(U.StrictDefaultUndefined),
 }
-PARTIALS = {"p": "[{{ p }}|{{ v }}|{{ item }}]", "q": "{{ s }}"}
+PARTIALS = {"p": "[{{ p }}|{{ v }}|{{ item }}]", "q": "{{ s }}", "pl": "{{ forloop.parentloop.index }}"}
 
 
 def run(case, kind: str, data):
@@ -188,6 +188,12 @@ PROBES = [
     ("filter-arg", "{{ 'a' | append: nosuch }}"), ("filter-first", "{{ nosuch | first }}"), ("assign-output", "{% assign v = nosuch %}{{ v }}"),
     ("capture", "{% capture v %}{{ nosuch }}{% endcapture %}"), ("index", "{{ xs[9] }}"), ("range", "{% for i in (1..nosuch) %}x{% endfor %}"),
     ("cycle", "{% cycle nosuch, 'b' %}"), ("include-arg", "{% include 'p', v: nosuch %}"), ("render-arg", "{% render 'p', v: nosuch %}"),
+    # missing values that the engine makes itself: they are of the configured type too
+    ("parentloop-of-an-outermost-loop", "{% for x in xs %}{{ forloop.parentloop.index }}{% endfor %}"), ("parentloop-output", "{% for x in xs %}{{ forloop.parentloop }}{% endfor %}"),
+    ("parentloop-compared", "{% for x in xs %}{% if forloop.parentloop.first == true %}y{% endif %}{% endfor %}"), ("parentloop-iterated", "{% for x in xs %}{% for y in forloop.parentloop %}z{% endfor %}{% endfor %}"),
+    ("parentloop-filtered", "{% for x in xs %}{{ forloop.parentloop | upcase }}{% endfor %}"), ("parentloop-in-render-for", "{% render 'pl' for xs %}"), ("parentloop-in-include-for", "{% include 'pl' for xs %}"),
+    ("parentloop-in-tablerow", "{% tablerow x in xs %}{{ forloop.index }}{% endtablerow %}"), ("loop-helper-missing-property", "{% for x in xs %}{{ forloop.nosuch }}{% endfor %}"),
+    ("tablerow-helper-missing-property", "{% tablerow x in xs %}{{ tablerowloop.nosuch }}{% endtablerow %}"), ("parentloop-two-levels-up", "{% for x in xs %}{% for y in xs %}{{ forloop.parentloop.parentloop.index }}{% endfor %}{% endfor %}"),
 ]
 
 
